@@ -17,6 +17,14 @@
 (*              params, definition, docs)) for composite / variant: empty   *)
 (*              path, no parameters, no docs, that definition               *)
 (*  NewEntry    PortableType::new(id, ty) carries exactly id and ty         *)
+(*  Ctors       a registry assembled through the public constructors only   *)
+(*              (Type::new, Field::new, Variant::new, TypeDef*::new,        *)
+(*              TypeParameter::new_portable, Path::from_segments_unchecked) *)
+(*              reads back as exactly the arguments given                   *)
+(*  Misc        TypeDefTuple::unit() is the tuple without members and       *)
+(*              registers nothing; Registry::default() is empty;            *)
+(*              Field::builder() builds what Field::new builds; Debug of a  *)
+(*              MetaType is Debug of the TypeId of its identity             *)
 (*                                                                         *)
 (* Strings are sequences of UTF-8 bytes, numbers 4 little-endian bytes     *)
 (* (the wide projection).                                                  *)
@@ -35,7 +43,11 @@ ResolveOK(reg, probes) ==
   \A k \in 1..Len(probes) :
      probes[k].got = (IF probes[k].i < Len(reg) THEN <<Body(reg[probes[k].i + 1])>> ELSE <<>>)
 FromDefOK(x) == x.ty = [path |-> <<>>, params |-> <<>>, def |-> x.def, docs |-> <<>>]
+MiscOK(m) == /\ m.unit = [tag |-> "tuple", tys |-> <<>>] /\ m.default_len = 0 /\ m.after_unit = 0
+             /\ m.field_builder = TRUE /\ m.meta_debug = TRUE
 SurfaceOK(e) ==
+  /\ e.reg = e.src                                   \* Ctors
+  /\ MiscOK(e.misc)
   /\ e.get = e.reg                                   \* Getters (includes NewEntry: the registry was built by PortableType::new)
   /\ \A k \in 1..Len(e.paths) : PathOK(e.paths[k])
   /\ ResolveOK(e.reg, e.probes)
